@@ -203,6 +203,10 @@ def run(ck):
     C03.close_rules(ck, "2c")
     C04.closed_rules(ck, "2c")
     common.import_results(ck, C01, "3", "dispatch_events", "2c")
+    from props import C09, C14
+
+    common.import_results(ck, C09, "2", "dispatch_events", "2c")
+    C14.lifecycle_set_follows(ck, "2c")
     common.import_results(ck, C05, "5", "Timer", "2c")
     if ck.has("stream"):
         common.import_results(ck, C10, "6", "StreamSource", "2c")
